@@ -156,6 +156,7 @@ def run_translator(ck):
            "Definition NP := Eval vm_compute in Z.of_nat (List.length gen_paths).\nPrint NP.\n"
            "Definition EO := Eval vm_compute in entries_ok gen_on_entries_cols gen_spl_fields gen_tsd_fields gen_spl_consumed gen_tsd_consumed.\nPrint EO.\n"
            "Definition EC := Eval vm_compute in map (fun c => let '(f, fn, _, a) := c in (f, fn, a)) (filter (fun c => negb (entries_call_ok c)) gen_on_entries_calls).\nPrint EC.\n"
+           "Definition RS := Eval vm_compute in scopes_eqb gen_recover_scopes recover_scopes_model.\nPrint RS.\n"
            "Definition US := Eval vm_compute in unaccounted_sites gen_handler_side_sites.\nPrint US.\n"
            "Definition UF := Eval vm_compute in filter (fun x => negb (existsb (String.eqb x) handler_side_functions_model)) gen_handler_side_functions.\nPrint UF.\n"
            "Definition FS := Eval vm_compute in map rt_handler (filter (fun r => negb (first_pre_is_service r)) gen_routes).\nPrint FS.\n"
@@ -213,6 +214,8 @@ def run_translator(ck):
                   "entries_ok over the generated onEntries = " + val("EO"))
     ck.obligation("every call of onEntries passes one-element literals or comes from a decoder whose four slices are built together (allow-list)",
                   val("EC") == "[]", "call sites not accounted for: " + val("EC"))
+    ck.obligation("recover() is called in the two tamePanic functions only and exactly three defer statements name one", val("RS") == "true",
+                  "gen_recover_scopes differs from recover_scopes_model (see coq/gen/GenGoroutinesWriter.v)")
     ck.obligation("every index / slice / type assertion that runs on the handler goroutine (outside tamePanic) is allow-listed with its reason",
                   val("US") == "[]", "unaccounted sites (file, function, kind, expression): " + val("US"))
     ck.obligation("only setters, resets and constructors of package unmarshal run on the handler goroutine", val("UF") == "[]",
@@ -416,6 +419,10 @@ def run_harness(ck):
         "precision, Content-Encoding, Content-Type); bytes: mutations (truncate, bit flips, random, delete, insert, boundary bytes, duplicate) of valid "
         "bodies of 17 route/content-type seeds, also gzip/snappy wrapped and under foreign content types. Non-trivial = structured case with at least one "
         "malformation or encoding overlay, or byte-level case whose body/params/headers differ from the seed; distinct by sha1 of (path, query, headers, body). ")
+    lat = sorted(int(c["obs"].get("ms", 0)) for c in cases if c["obs"]["outcome"] in ("2xx", "4xx", "5xx"))
+    if lat:
+        ck.extra["latency_ms_(measured_confirmation_of_the_termination_theorems)"] = {
+            "answered": len(lat), "median": lat[len(lat) // 2], "p99": lat[(len(lat) * 99) // 100], "max": lat[-1], "deadline": 3000}
     ck.extra["input_distribution"] = {"classes": dict(sorted(hist.items())), "outcomes": dict(sorted(outcomes.items())),
                                       "structured_cases": nstruct, "of_which_predicted_from_the_route_table": ngeneric, "byte_level_fuzz_cases_(test_not_proof)": nbytes}
     smp = []
@@ -525,23 +532,27 @@ def run_pipe(ck):
             return
     if not cases:
         return
-    txt = ("From Coq Require Import List String Ascii ZArith NArith Bool.\n"
-           "From Qryn Require Import model.IngestRobust model.IngestPipe gen.GenGoroutinesWriter.\n"
-           "Import ListNotations.\nOpen Scope Z_scope.\n"
-           "Definition cases : list pcase := [\n  " + ";\n  ".join(pcase_to_coq(c) for c in cases if c["kind"] != "logs") + "].\n"
-           "Definition lcases : list lcase := [\n  " + ";\n  ".join(lcase_to_coq(c) for c in cases if c["kind"] == "logs") + "].\n"
-           "Definition M := Eval vm_compute in (pipe_mismatches gen_on_span_cols gen_spans_fields gen_attrs_fields cases "
-           "++ lpipe_mismatches gen_on_entries_cols gen_spl_fields gen_tsd_fields lcases)%list.\nPrint M.\n"
-           "Definition V := Eval vm_compute in (pipe_spec_violations cases ++ lpipe_spec_violations lcases)%list.\nPrint V.\n")
-    rc, out = ck.coq_eval("C05_pipe", txt)
-    flat = " ".join(out.split())
-    m = re.search(r"M = \[(.*?)\]\s*: list Z", flat)
-    v = re.search(r"V = \[(.*?)\]\s*: list Z", flat)
-    if rc != 0 or not m or not v:
-        ck.obligation("pipefuzz cases evaluated inside Coq", False, out[-1500:])
-        return
-    mism = [int(x) for x in re.findall(r"-?\d+", m.group(1))]
-    viol = [int(x) for x in re.findall(r"-?\d+", v.group(1))]
+    mism, viol = [], []
+    shard = 3000
+    for k in range(0, len(cases), shard):
+        part = cases[k:k + shard]
+        txt = ("From Coq Require Import List String Ascii ZArith NArith Bool.\n"
+               "From Qryn Require Import model.IngestRobust model.IngestPipe gen.GenGoroutinesWriter.\n"
+               "Import ListNotations.\nOpen Scope Z_scope.\n"
+               "Definition cases : list pcase := [\n  " + ";\n  ".join(pcase_to_coq(c) for c in part if c["kind"] != "logs") + "].\n"
+               "Definition lcases : list lcase := [\n  " + ";\n  ".join(lcase_to_coq(c) for c in part if c["kind"] == "logs") + "].\n"
+               "Definition M := Eval vm_compute in (pipe_mismatches gen_on_span_cols gen_spans_fields gen_attrs_fields cases "
+               "++ lpipe_mismatches gen_on_entries_cols gen_spl_fields gen_tsd_fields lcases)%list.\nPrint M.\n"
+               "Definition V := Eval vm_compute in (pipe_spec_violations cases ++ lpipe_spec_violations lcases)%list.\nPrint V.\n")
+        rc, out = ck.coq_eval("C05_pipe_%d" % (k // shard), txt)
+        flat = " ".join(out.split())
+        m = re.search(r"M = \[(.*?)\]\s*: list Z", flat)
+        v = re.search(r"V = \[(.*?)\]\s*: list Z", flat)
+        if rc != 0 or not m or not v:
+            ck.obligation("pipefuzz cases evaluated inside Coq", False, out[-1500:])
+            return
+        mism += [int(x) for x in re.findall(r"-?\d+", m.group(1))]
+        viol += [int(x) for x in re.findall(r"-?\d+", v.group(1))]
     byid = {c["id"]: c for c in cases}
     ck.obligation("pipeline correspondence: on %d scripted-decoder requests the real Build/doParse/doPush/parserDoer/onSpan/onProfile give the status class and "
                   "exactly the batches (every column length, any order of the push goroutines) that the model's interpreter over the regenerated onSpan / onEntries predicts" % len(cases),
